@@ -35,23 +35,57 @@ SORT_SPANS = int(os.environ.get("VERIF_C04_SORT_SPANS", "0"))  # 1 = rich 9.10.0
 # tag-grammar documents
 # ------------------------------------------------------------------------------------------------
 # (canonical normalized name, spellings usable in an opening tag, spellings usable after '/')
-VOCAB = [
-    ("bold", ["bold", "b", "bOLD", "bold ", "b  "], ["bold", "b", " bold ", "BOLD", "b ", "Bold"]),
-    ("italic", ["italic", "i", "iTALIC"], ["italic", "i", "I"]),
-    ("underline", ["u", "underline"], ["u", "underline", " U"]),
-    ("red", ["red", "rED"], ["red", "RED", " red"]),
-    ("blue", ["blue"], ["blue"]),
-    ("bold red", ["bold red", "red bold", "b red", "red  b", "bold rED"], ["bold red", "red bold", "RED b"]),
-    ("not bold", ["not bold", "not b"], ["not bold", "not  b", "NOT bold"]),
-    ("on blue", ["on blue", "on  blue"], ["on blue", "ON BLUE"]),
-    ("#ff0000", ["#ff0000", "#FF0000"], ["#ff0000", "#Ff0000"]),
-    ("red on blue", ["red on blue", "on blue red"], ["red on blue", "on blue red"]),
-    ("foo", ["foo", "fOO", "foo "], ["foo", " FOO ", "Foo"]),
-    ("a", ["a"], ["a", "A"]),
-    ("b1", ["b1"], ["b1", "B1"]),
-    ("x/y", ["x/y"], ["x/y", "X/Y"]),
-    ("link", ["link"], ["link", "LINK"]),
-]
+# every attribute name and alias Style.parse accepts (rich/style.py style_attributes)
+ATTR13 = [("bold", "b"), ("dim", "d"), ("italic", "i"), ("underline", "u"), ("blink", None), ("blink2", None),
+          ("reverse", "r"), ("conceal", "c"), ("strike", "s"), ("underline2", "uu"), ("frame", None),
+          ("encircle", None), ("overline", "o")]
+
+
+def _case(w):
+    return w[0] + w[1:].upper() if len(w) > 1 else w  # opening tags must start lower-case ([a-z#/])
+
+
+def build_vocab():
+    """(canonical normalized name, spellings for an opening tag, spellings after '/').  The canonical
+    name is written down here (attribute order of Style.__str__, then colour, then `on` colour),
+    not asked of rich."""
+    v = [
+        ("red", ["red", "rED"], ["red", "RED", " red"]),
+        ("blue", ["blue"], ["blue"]),
+        ("bold red", ["bold red", "red bold", "b red", "red  b", "bold rED"], ["bold red", "red bold", "RED b"]),
+        ("on blue", ["on blue", "on  blue"], ["on blue", "ON BLUE"]),
+        ("#ff0000", ["#ff0000", "#FF0000"], ["#ff0000", "#Ff0000"]),
+        ("red on blue", ["red on blue", "on blue red"], ["red on blue", "on blue red"]),
+        ("overline green", ["o green", "green overline"], ["overline green", "green o"]),
+        ("not frame on yellow", ["not frame on yellow", "on yellow not frame"], ["not frame on yellow"]),
+        ("none", ["none"], ["none", "NONE", " none "]),
+        ("foo", ["foo", "fOO", "foo "], ["foo", " FOO ", "Foo"]),
+        ("a", ["a"], ["a", "A"]),
+        ("b1", ["b1"], ["b1", "B1"]),
+        ("x/y", ["x/y"], ["x/y", "X/Y"]),
+        ("link", ["link"], ["link", "LINK"]),
+    ]
+    for name, alias in ATTR13:
+        sp = [name, _case(name)] + ([alias, alias + " "] if alias else [name + " "])
+        v.append((name, sp, [name, name.upper(), " " + (alias or name) + " "]))
+        neg = ["not " + name] + (["not " + alias, "not  " + alias.upper()] if alias else ["not  " + name])
+        v.append(("not " + name, neg, ["not " + name, "NOT " + (alias or name)]))
+    for i, (n1, a1) in enumerate(ATTR13):
+        for n2, a2 in ATTR13[i + 1:]:
+            s1, s2 = a1 or n1, a2 or n2
+            v.append((n1 + " " + n2, [n1 + " " + n2, s2 + " " + s1, s1 + "  " + n2], [n1 + " " + n2, s2 + " " + n1]))
+    # mixed: one attribute set, a neighbour cleared (canonical order = attribute order)
+    for i in range(len(ATTR13)):
+        n1, a1 = ATTR13[i]
+        n2, a2 = ATTR13[(i + 5) % len(ATTR13)]
+        first, second = (n1, "not " + n2) if i < (i + 5) % len(ATTR13) else ("not " + n2, n1)
+        v.append((first + " " + second, ["not " + (a2 or n2) + " " + (a1 or n1), n1 + " not " + n2], [first + " " + second]))
+    return v
+
+
+VOCAB = build_vocab()
+# the attribute tags are drawn more often than their share of the vocabulary
+VOCAB_ATTR = [x for x in VOCAB if x[0].split()[-1] in {n for n, _ in ATTR13}]
 PARAMS = [None, None, None, "1", "", "http://x.y/z", "a=b", "b c", "[q"]
 LEAF_ALPHA = L.ALPHA + ["x", "y", "é", "あ", "\r", "\x08", "A", "smile", "]", "[", "\\", "a", ":", " "]
 
@@ -73,6 +107,10 @@ def gen_doc(rng, malformed=False):
 
     # each document draws from a small sub-vocabulary, so the same name is often open twice
     VOCAB = rng.sample(globals()["VOCAB"], rng.choice([1, 2, 3, 3, 5, 15]))
+    if rng.random() < 0.6:
+        # a style attribute, and often its negation or a pair containing it (a later tag must override)
+        base = rng.choice(ATTR13)[0]
+        VOCAB += rng.sample([x for x in VOCAB_ATTR if base in x[0].split()], 3)
     toks = []
     parts = []
     open_ = []  # canonical names, in opening order
@@ -108,7 +146,7 @@ def gen_doc(rng, malformed=False):
             v = rng.choice(VOCAB)
             sp = rng.choice(v[1])
             p = rng.choice(PARAMS)
-            toks.append(("open", v[0], p))
+            toks.append(("open", v[0], p, sp))
             parts.append("[" + sp + ("]" if p is None else "=" + p + "]"))
             open_.append(v[0])
         elif r < 0.9:
@@ -200,9 +238,10 @@ def expect_doc(toks):
             s = L.strip_ctl(t[1])
             plain += s
             ann.extend([tuple(o[3] for o in open_)] * len(s))
+            ann_w.extend([tuple(o[4] for o in open_)] * len(s))
         elif t[0] == "open":
             st = t[1] if t[2] is None else t[1] + " " + t[2]
-            open_.append([nopen, len(plain), t[1], st])
+            open_.append([nopen, len(plain), t[1], st, t[3] if t[2] is None else t[3] + " " + t[2]])
             nopen += 1
         elif t[0] == "close":
             idx = max(j for j, o in enumerate(open_) if o[2] == t[1])
@@ -215,7 +254,7 @@ def expect_doc(toks):
             return ("err", t[1], t[2])
     for o in open_:
         spans[o[0]] = (o[1], len(plain), o[3])
-    return ("ok", plain, ann, [spans[i] for i in range(nopen)])
+    return ("ok", plain, ann, [spans[i] for i in range(nopen)], ann_w)
 
 
 def char_styles(text, console):
